@@ -45,12 +45,12 @@ package aspect_elimination
 //@ spec thresholdOf(t model.Weights, id string) real = id in t ? t[id] : 0.0
 
 //@ func isBellowThreshold
-//@   property C12 C01
+//@   property C12 C01 C14
 //@   panics_iff [missing] !(criterion.Id in a.Criteria)
 //@   ensures [below] result <==> model.signed(*a, *criterion) < thresholdOf(*thresholds, criterion.Id) * model.mult(*criterion)
 
 //@ func makeWeightPair
-//@   property C12 C01
+//@   property C12 C01 C14
 //@   ensures [single_threshold] fresh(result) && criterion.Id in result && result[criterion.Id] == thresholdOf(*weights, criterion.Id) && forall q string :: q in result ==> q == criterion.Id
 
 //@ pred eliminatedAt(r model.AlternativeResult, alt model.AlternativeWithCriteria, level int, thresholds model.Weights) =
@@ -58,7 +58,7 @@ package aspect_elimination
 //@   && r.Evaluation.(AspectEliminationEvaluation).ThresholdsIndex == level && r.Evaluation.(AspectEliminationEvaluation).NotSatisfiedThreshold == thresholds
 
 //@ func updateResult
-//@   property C12 C01
+//@   property C12 C01 C14
 //@   requires 0 <= resultInsertIndex && resultInsertIndex < len(result) && resultInsertIndex < len(resultIds) && arr(result) != 0
 //@   assigns result, resultIds
 //@   ensures [slot_written] eliminatedAt(result[resultInsertIndex], alternative, alternativeValue, *thresholds) && resultIds[resultInsertIndex] == alternative.Id
@@ -67,7 +67,7 @@ package aspect_elimination
 //@             && (forall k int :: 0 <= k && k < len(resultIds) && k != resultInsertIndex ==> resultIds[k] == old(resultIds[k]))
 
 //@ func fillRemainingAlternatives
-//@   property C12 C01
+//@   property C12 C01 C14
 //@   requires len(leftToChoice) <= len(result) && len(leftToChoice) <= len(resultIds) 
 //@   assigns result, resultIds
 //@   ensures [survivors_on_top] forall k int :: 0 <= k && k < len(leftToChoice) ==> result[k].Alternative == leftToChoice[k] && resultIds[k] == leftToChoice[k].Id
@@ -88,7 +88,7 @@ package aspect_elimination
 //@      exists j int :: 0 <= j && j < len(cs) && cs[j].Criterion.Id in nst && model.signed(alt, cs[j].Criterion) < nst[cs[j].Criterion.Id] * model.mult(cs[j].Criterion)
 
 //@ func checkWithinSatisfactionLevels
-//@   property C12 C01
+//@   property C12 C01 C14
 //@   requires [distinct_alternatives] distinctIds(*considered)
 //@   ensures [every_alternative_once] fresh(result1) && fresh(result2) && len(result1) == len(*considered) && len(result2) == len(*considered)
 //@             && len(result0) <= len(*considered) && distinctIds(result0) && (len(*considered) >= 1 ==> len(result0) >= 1)
